@@ -235,7 +235,7 @@ func scenarioC11(c *RunCtx) {
 	case 2:
 		checkGenome(BuildModularGenome(t), "generated modular genome")
 	}
-	checkGenome(BuildGenome(t, GenomeSpec{AllowDisabled: true, MaxHidden: 4, ActSwarm: true}), "generated genome")
+	checkGenome(BuildGenome(t, GenomeSpec{AllowDisabled: true, MaxHidden: 4, ActSwarm: true, OutToOut: true, NoInputsSometimes: true}), "generated genome")
 }
 
 func outsClose(a, b []float64) (int, bool) {
@@ -304,7 +304,7 @@ func scenarioC12(c *RunCtx) {
 	w, genomes := EvolveForNets(c, spec, maxEpochs, t.Range("nets", 1, 4))
 	c.Sample = w.Describe()
 	c.Op("world: %s", w.Describe())
-	genomes = append(genomes, BuildGenome(t, GenomeSpec{AllowDisabled: true, MaxHidden: 5, ActSwarm: true, FeedForwardOnly: true}))
+	genomes = append(genomes, BuildGenome(t, GenomeSpec{AllowDisabled: true, MaxHidden: 5, ActSwarm: true, FeedForwardOnly: true, OutToOut: true, NoInputsSometimes: true}))
 	if t.Chance("parallelLinks", 1, 6) {
 		// two genes may join the same ordered node pair when their recurrence flags differ; the flag is a label, the
 		// network stays acyclic and both links carry signal
@@ -843,7 +843,7 @@ func scenarioC13(c *RunCtx) {
 	w, genomes := EvolveForNets(c, netSpec(t, maxPop, recurrent), maxEpochs, t.Range("nets", 1, 3))
 	c.Sample = w.Describe()
 	c.Op("world: %s", w.Describe())
-	genomes = append(genomes, BuildGenome(t, GenomeSpec{AllowDisabled: true, MaxHidden: 3, ActSwarm: true, FeedForwardOnly: !recurrent}))
+	genomes = append(genomes, BuildGenome(t, GenomeSpec{AllowDisabled: true, MaxHidden: 3, ActSwarm: true, FeedForwardOnly: !recurrent, OutToOut: true}))
 	if t.Chance("modularNet", 1, 2) {
 		genomes = append(genomes, BuildModularGenome(t))
 		c.Count("probe.modular_network")
@@ -1014,7 +1014,7 @@ func scenarioC14(c *RunCtx) {
 	w, genomes := EvolveForNets(c, netSpec(t, maxPop, recurrent), maxEpochs, t.Range("nets", 1, 3))
 	c.Sample = w.Describe()
 	c.Op("world: %s", w.Describe())
-	genomes = append(genomes, BuildGenome(t, GenomeSpec{AllowDisabled: true, MaxHidden: 5, FeedForwardOnly: !recurrent}))
+	genomes = append(genomes, BuildGenome(t, GenomeSpec{AllowDisabled: true, MaxHidden: 5, FeedForwardOnly: !recurrent, OutToOut: true}))
 	for gi, g := range genomes {
 		if len(g.Nodes) >= 2 && t.Chance("disabledModule", 1, 5) {
 			// a genome whose modules are all disabled expresses a network without control nodes: non-modular in effect
